@@ -729,6 +729,7 @@ def check_grammar(fx, rep, rule='R13.11'):
                 '(recursive functions: %s)' % (feedback, sorted(rec)))
         return
     cut = feedback[0]
+    fx._c13_type_entry = cut
     # entry of the module: the non-parser function taking the text and returning the interface
     tops = sorted(n for n, f in fns.items() if not probe.is_parser_fn(n) and 'Interface' in (f.get('sig') or '').split('->')[-1] and 'str' in (f.get('sig') or '').split('->')[0])
     if len(tops) != 1:
@@ -769,6 +770,86 @@ def check_grammar(fx, rep, rule='R13.11'):
                   detail={'witness': w2})
 
 
+def check_empty_inline(fx, rep, rule='R13.12'):
+    """an inline type without members, `()`, denotes the empty struct: in every ordered choice (`alt`) of the parser that leads to the production building
+    Type::Object, the struct production accepts `( )` and no alternative tried before it does (engine M decides the membership)"""
+    import ast as A
+    import grammar as G
+    where = 'zlink-core/src/idl/parse/mod.rs'
+    fns = {}
+    for fn, n, info in A.all_fns(fx.tpl, 'idl/parse/'):
+        if '/tests' in fn or fn.endswith('tests.rs'):
+            continue
+        fns[n['name']] = n
+    atoms = {'interface_name': 'IN', 'type_name': 'TN', 'field_name': 'FN'}
+    scanners = {nm: atoms[nm] for nm in atoms if nm in fns}
+    probe = G.Extractor(fns, scanners)
+    pf = [n for n in fns if probe.is_parser_fn(n) and n not in scanners and n not in G.LEXICAL]
+    def constructs(n, ctor):
+        for x in A.nodes(fns[n]['body']):
+            f_ = x.get('func') if x.get('k') == 'call' else x.get('text') if x.get('k') == 'path' else None
+            f_ = f_ if isinstance(f_, str) else A.text(f_) if f_ else ''
+            if re.sub(r'\s', '', f_).endswith(ctor):
+                return True
+        return False
+    builds_obj = {n for n in pf if constructs(n, 'Type::Object')}
+    builds_enum = {n for n in pf if constructs(n, 'Type::Enum')}
+    if not builds_obj or not builds_enum:
+        rep.bad(rule, 'anchor|constructors', where, 'the parser functions building Type::Object / Type::Enum were not found (found %s / %s)' % (sorted(builds_obj), sorted(builds_enum)))
+        return
+    empty = G.cat(G.lit('('), G.lit(')'))
+    cut = getattr(fx, '_c13_type_entry', None)
+    if cut is None:
+        rep.bad(rule, 'anchor|type-entry', where, 'the recursive type production was not identified (see R13.11)')
+        return
+
+    def accepts_empty(name):
+        ex = G.Extractor(fns, scanners, cut=cut)
+        ex.stack.append(('<top>', {}))
+        try:
+            r = ex.fn_lang(name)
+        finally:
+            ex.stack.pop()
+        return G.included(empty, r) is None
+    n_alt = 0
+    for host in pf:
+        for x in A.nodes(fns[host]['body']):
+            if x.get('k') != 'call':
+                continue
+            fnm = (x['func'] if isinstance(x['func'], str) else A.text(x['func'])).split('::<')[0].split('::')[-1]
+            if fnm != 'alt' or not x.get('args'):
+                continue
+            inner = x['args'][0]
+            elems = inner['elems'] if inner.get('k') in ('tuple', 'array') else [inner]
+            names = []
+            for e in elems:
+                e0 = e
+                while isinstance(e0, dict) and e0.get('k') == 'mcall':
+                    e0 = e0.get('recv')
+                names.append((e0.get('text') or '').split('::')[-1] if isinstance(e0, dict) and e0.get('k') == 'path' else None)
+            objs = [i for i, nm in enumerate(names) if nm in builds_obj]
+            if not objs:
+                continue
+            n_alt += 1
+            i0 = objs[0]
+            try:
+                ok_struct = accepts_empty(names[i0])
+                before = [nm for nm in names[:i0] if nm is None or (nm in fns and accepts_empty(nm))]
+            except (G.Unmodelled, RecursionError) as e:
+                rep.bad(rule, '%s|alt-%d|extract' % (host, n_alt), '%s:%s' % (where, x.get('line')), 'the alternatives of this ordered choice cannot be extracted: %s' % e)
+                continue
+            rep.check(ok_struct, rule, '%s|struct-accepts-empty' % host, '%s:%s' % (where, x.get('line')),
+                      '%s (builds Type::Object) accepts the member-less `( )`' % names[i0],
+                      '%s, the production that builds Type::Object, does not accept `( )`: the empty inline type falls through to a later alternative and is not '
+                      'parsed as the empty struct it denotes (unit `()` / unit structs are described this way)' % names[i0])
+            rep.check(not before, rule, '%s|empty-claimed-by-struct' % host, '%s:%s' % (where, x.get('line')),
+                      'no alternative tried before %s accepts `( )`' % names[i0],
+                      'ordered choice: %s is tried before %s and accepts `( )`, so the empty inline type never reaches the struct production and is built as something '
+                      'else than the empty struct it denotes' % (before, names[i0]))
+    if not n_alt:
+        rep.bad(rule, 'anchor|alt', where, 'no ordered choice leading to the struct production found')
+
+
 def check(fx, rep, tier):
     rep.rule('R13.9', 'phrase-level parser functions never search the unparsed bytes ahead (position / contains / find ...): such look-ahead is blind to comments and nesting; only the lexical helpers inspect raw bytes')
     rep.rule('R13.10', 'the nearest parser step before every member-name scan is comment-aware (ws / parse_preceding_comments) or a token, never the comment-blind white-space skip')
@@ -787,6 +868,10 @@ def check(fx, rep, tier):
              'for the recursive type production and for the interface production')
     check_grammar(fx, rep)
     rep.floor('R13.11', 4, 'grammar inclusion verdicts (2 productions x 2 directions)')
+    rep.rule('R13.12', 'an inline type without members, `( )`, is parsed as the empty struct it denotes: the production building Type::Object accepts it and no alternative of an '
+             'ordered choice tried before that production does')
+    check_empty_inline(fx, rep)
+    rep.floor('R13.12', 2, 'ordered choice leading to the struct production (2 obligations)')
     cfgs = ['full'] + (['nostd'] if tier == 'thorough' else [])
     nsc = 0
     nms = 0
